@@ -462,7 +462,9 @@ func (w *world) feeCase(c kase) (g *types.Transactions, ok bool) {
 		}
 	case "signed-tail-fee-nonzero":
 		g.Txs[c.I].Fee = int64(c.J)
-		g.Txs[0].Fee += int64(c.J) // the head still covers everything
+		if c.J > 0 {
+			g.Txs[0].Fee += int64(c.J) // the head still covers everything
+		}
 		g.RebuiltGroup()
 		resign(g)
 	default:
@@ -633,6 +635,8 @@ func explore(n, vi int) {
 		try(kase{Kind: "tail-fee+1", I: i})
 		try(kase{Kind: "signed-tail-fee-nonzero", I: i, J: 1})
 		try(kase{Kind: "signed-tail-fee-nonzero", I: i, J: int(minFee)})
+		try(kase{Kind: "signed-tail-fee-nonzero", I: i, J: -1}) // a fee is a signed number: "carries a fee" includes a negative one
+		try(kase{Kind: "signed-tail-fee-nonzero", I: i, J: -int(minFee)})
 	}
 	// every case is independent (fresh decoded copy of the honest group): run them on a worker pool
 	var wg sync.WaitGroup
@@ -663,7 +667,7 @@ func explore(n, vi int) {
 func main() {
 	clog.SetLogLevel("crit")
 	r = vx.Start("C17", "exploration")
-	r.Rule = "for every group size (quick 2,3,4,20; thorough 2..20) x 4 variants (main chain, one parachain + height expiry, time expiry + >1000-byte member, expiry set by the client SetExpire/RebuiltGroup path): the untouched signed group, every transposition, reversal, rotation, every drop (also with adjusted counts), insertion at every position of (stand-alone tx | every member of a sibling group | every member of a valid group one larger | a duplicate of every member), substitution of every member by the same (and by the equal-hash member of another honest group with a different head), every descriptor-derived field mutation of every member (bytes: first/last bit, truncate, clear, append; every single bit of every integer) (with and without the attacker re-chaining the group), head fee-1, tail fee+1, and honestly re-signed groups with head fee below the requirement / non-zero tail fee. Tampered groups are judged under the configured minimum fee rate and under rate 0. Both the direct route (Transactions.Check/CheckSign) and the packed wire route (Transactions.Tx -> TransactionCache.Check/CheckSign) are evaluated. distinct = distinct (mutation kind[:field] -> rejecting mechanism) classes"
+	r.Rule = "for every group size (quick 2,3,4,20; thorough 2..20) x 4 variants (main chain, one parachain + height expiry, time expiry + >1000-byte member, expiry set by the client SetExpire/RebuiltGroup path): the untouched signed group, every transposition, reversal, rotation, every drop (also with adjusted counts), insertion at every position of (stand-alone tx | every member of a sibling group | every member of a valid group one larger | a duplicate of every member), substitution of every member by the same (and by the equal-hash member of another honest group with a different head), every descriptor-derived field mutation of every member (bytes: first/last bit, truncate, clear, append; every single bit of every integer) (with and without the attacker re-chaining the group), head fee-1, tail fee+1, and honestly re-signed groups with head fee below the requirement / non-zero tail fee (1, the minimum fee, -1, minus the minimum fee). Tampered groups are judged under the configured minimum fee rate and under rate 0. Both the direct route (Transactions.Check/CheckSign) and the packed wire route (Transactions.Tx -> TransactionCache.Check/CheckSign) are evaluated. distinct = distinct (mutation kind[:field] -> rejecting mechanism) classes"
 	r.Assume = []string{
 		"a member re-signed with a different key but identical content is not counted as a substituted member: hashes ignore the signature by design (C16), observed and counted as observed_resigned_member_accepted",
 		"expiry of groups (IsExpire) is not part of Check/CheckSign and is not asserted here",
